@@ -26,9 +26,10 @@ def obligations(tier):
            'LASSectionArray.add_member_line/_add_member_with_wrap_mode/_add_buffer/_convert_value/finalise', 'LASRead.LASRead._process_file/_process_section_v/_process_section/_process_section_a',
            'common.LogPass.FrameArray/FrameChannel', 'common.AbsentValue.mask_absent_values']
     return [
-        Ob('las_layout_independence', 'ch', 'LAS 1.2/2.0, 1..4 curves, 1..2 (3 thorough) frames, wrap on/off, comments, blank lines, leading spaces, column separator widths, '
-           'values per wrapped line, cell vocabulary incl. unparseable tokens',
+        Ob('las_layout_independence', 'ch', 'LAS 1.2/2.0 (version written with 1 or 2 decimals), 1..4 curves (incl. numeric curves named TIME / DATE, units with dots), 1..2 (1 or 3 thorough) frames, wrap on/off, '
+           'comments (at column 0 or indented by spaces / a tab), blank lines (empty or spaces / tabs; before sections and between data rows), leading spaces, column separator widths, '
+           'values per wrapped line, cell vocabulary incl. unparseable tokens; header values typed (signed integers, floats, yes/no, text)',
            fns, harness='C09_las', func='las_layouts_q' if q else 'las_layouts', timeout=280 if q else 2400, parts=16),
-        Ob('section_line_fields', 'ch', 'mnemonic and unit of 1..2 characters over {A,z,0,_} (unit possibly empty), 10 value spellings, 0..2 spaces around the delimiters',
+        Ob('section_line_fields', 'ch', 'mnemonic of 1..2 characters over {A,z,0,_}, unit of 0..2 characters over {A,z,0,.}, 12 value spellings, 0..2 spaces around the delimiters',
            ['LASRead.line_to_sect_line', 'LASRead.string_to_value', 'LASRead.RE_LINE_FIELD_0/RE_LINE_FIELD_1'], harness='C09_las', func='sect_line_chars', timeout=280 if q else 900, parts=36),
     ]
